@@ -24,6 +24,18 @@ import numpy as np
 from .. import core
 
 PROP = "C17"
+
+
+def fail(report, clause, trigger, case, impl=None, detail=""):
+    """report.fail, keeping at most 3 instances of each (clause, trigger): the list of failures is bounded
+    and the many repetitions of a known finding must not crowd out a new one"""
+    seen = report.__dict__.setdefault("_fail_counts", {})
+    n = seen.get((clause, trigger), 0)
+    seen[(clause, trigger)] = n + 1
+    if n < 3:
+        report.fail(clause, trigger, case, impl, detail)
+    else:
+        report.count(f"repeated_failure:{clause}:{trigger}")
 NAN = float("nan")
 MANDATORY = ["no_data_img", "valid_pixels", "no_data_mask", "crs", "transform"]
 
@@ -242,13 +254,13 @@ def dataset_case(env: Env, report, lrec, rrec, tags, label="datasets"):
     if wf:
         report.hit("dataset_accept_iff_wf:well_formed")
         if status != "ok":
-            report.fail("dataset_accept_iff_wf", "well_formed_refused", case, impl, "every requirement holds")
+            fail(report, "dataset_accept_iff_wf", "well_formed_refused", case, impl, "every requirement holds")
     else:
         for f in model["failing"]:
             report.hit("dataset_accept_iff_wf:" + f.split(".")[-1])
         if status == "ok":
             sub = model["failing"][0]
-            report.fail("dataset_accept_iff_wf", "accepted:" + sub.split(".")[-1], case, impl, f"requirements violated: {model['failing']}")
+            fail(report, "dataset_accept_iff_wf", "accepted:" + sub.split(".")[-1], case, impl, f"requirements violated: {model['failing']}")
     return status
 
 
@@ -393,18 +405,18 @@ def input_case(env: Env, report, user_sym, tags, label="input"):
                 sample={"tags": tags, "impl": impl["status"], "verdict": model["verdict"], "rejecting": model["rejecting"]})
     report.count("input." + ("accepted" if status == "ok" else out))
     if not ci.same_value(before, user):
-        report.fail("input_accept_iff_documented", "input_mutated", case, impl, "check_input_section changed the user's dictionary")
+        fail(report, "input_accept_iff_documented", "input_mutated", case, impl, "check_input_section changed the user's dictionary")
     verdict = model["verdict"]
     if verdict == "accept":
         report.hit("input_accept_iff_documented:documented")
         if status != "ok":
-            report.fail("input_accept_iff_documented", "documented_form_refused", case, impl, "every requirement of the documented forms holds")
+            fail(report, "input_accept_iff_documented", "documented_form_refused", case, impl, "every requirement of the documented forms holds")
     elif verdict == "reject":
         for c in model["rejecting"]:
             report.hit("input_accept_iff_documented:" + c)
         if status == "ok":
             trig = input_trigger(user) or ("accepted:" + model["rejecting"][0])
-            report.fail("input_accept_iff_documented", trig, case, impl, f"outside the documented forms: {model['rejecting']}")
+            fail(report, "input_accept_iff_documented", trig, case, impl, f"outside the documented forms: {model['rejecting']}")
     else:
         report.count("input.undecided")
     return status, model
@@ -480,10 +492,10 @@ def main_case(env: Env, report, user_sym, tags):
     report.hit("refused_before_matching")
     if expected_ok:
         if outcome != "reached_run":
-            report.fail("refused_before_matching", "accepted_configuration_does_not_run", case, impl)
+            fail(report, "refused_before_matching", "accepted_configuration_does_not_run", case, impl)
     else:
         if not outcome.startswith("raised:") or calls or os.path.exists(out_dir):
-            report.fail("refused_before_matching", "refused_configuration_reaches_run", case, impl,
+            fail(report, "refused_before_matching", "refused_configuration_reaches_run", case, impl,
                         "a configuration check_conf refuses must raise before pandora.run and write nothing")
 
 
